@@ -59,7 +59,7 @@ def _spec(draw, tier):
     morph = draw(gm.morphology(tier, kinds=(kind,), max_branches=4, max_ncomp=3, max_cells=3, ranges=gm.RANGES_DYN))
     N = gm.n_compartments(morph["cells"])
     morph["v"] = [draw(fl(-75.0, -50.0)) for _ in range(N)]
-    chans = draw(gn.channel_placement(N, mechs=("HH", "HH", "Leak", "Na", "K", "Km"), max_ch=2, allow_rename=False))
+    chans = draw(gn.channel_placement(N, mechs=("HH", "HH", "Leak", "Na", "K", "Km", "CaL", "CaT"), max_ch=2, allow_rename=False))
     edges = draw(gn.edge_list(N, max_edges=4, min_edges=0)) if kind == "network" and N >= 2 else []
     T = draw(st.integers(4, 12))
     stim = draw(gn.stimuli(N, T, max_stim=2, min_stim=1))
